@@ -46,6 +46,14 @@ theorem sum_scale (n : ℕ) (f g : ℕ → ℝ) (k : ℝ) (h : ∀ j, j < n → 
   rw [Finset.mul_sum]
   exact Finset.sum_congr rfl (fun j hj => h j (Finset.mem_range.mp hj))
 
+/-- affine map (pyvc.lib.ext_policy_stub.sum_affine): a constant factor and a constant
+offset move out of the sum -/
+theorem sum_affine (n : ℕ) (f g : ℕ → ℝ) (k c : ℝ) (h : ∀ j, j < n → f j = k * g j + c) :
+    ∑ j ∈ range n, f j = k * ∑ j ∈ range n, g j + (n : ℝ) * c := by
+  have h1 : ∑ j ∈ range n, f j = ∑ j ∈ range n, (k * g j + c) :=
+    Finset.sum_congr rfl (fun j hj => h j (Finset.mem_range.mp hj))
+  rw [h1, Finset.sum_add_distrib, Finset.sum_const, Finset.card_range, nsmul_eq_mul, Finset.mul_sum]
+
 end PyvcSum
 
 /- ---- bounds of finite sums / means (contracts/C10.py: sum_bounds_lemma; C10, C16) ---- -/
@@ -83,6 +91,14 @@ theorem mean_mem_Icc (n : ℕ) (hn : 0 < n) (f : ℕ → ℝ) (lo hi : ℝ)
   constructor
   · rw [le_div_iff₀ hn']; linarith [mul_comm (n : ℝ) lo]
   · rw [div_le_iff₀ hn']; linarith [mul_comm (n : ℝ) hi]
+
+/-- affine map (pyvc.lib.ext_policy_stub.sum_affine): a constant factor and a constant
+offset move out of the sum -/
+theorem sum_affine (n : ℕ) (f g : ℕ → ℝ) (k c : ℝ) (h : ∀ j, j < n → f j = k * g j + c) :
+    ∑ j ∈ range n, f j = k * ∑ j ∈ range n, g j + (n : ℝ) * c := by
+  have h1 : ∑ j ∈ range n, f j = ∑ j ∈ range n, (k * g j + c) :=
+    Finset.sum_congr rfl (fun j hj => h j (Finset.mem_range.mp hj))
+  rw [h1, Finset.sum_add_distrib, Finset.sum_const, Finset.card_range, nsmul_eq_mul, Finset.mul_sum]
 
 end PyvcSum
 
@@ -134,5 +150,13 @@ theorem c16_normalised_sum_one (n : ℕ) (a w : ℕ → ℝ)
     ∑ j ∈ range n, w j = 1 := by
   rw [c16_sum_div n a w _ h]
   exact div_self hS
+
+/-- affine map (pyvc.lib.ext_policy_stub.sum_affine): a constant factor and a constant
+offset move out of the sum -/
+theorem sum_affine (n : ℕ) (f g : ℕ → ℝ) (k c : ℝ) (h : ∀ j, j < n → f j = k * g j + c) :
+    ∑ j ∈ range n, f j = k * ∑ j ∈ range n, g j + (n : ℝ) * c := by
+  have h1 : ∑ j ∈ range n, f j = ∑ j ∈ range n, (k * g j + c) :=
+    Finset.sum_congr rfl (fun j hj => h j (Finset.mem_range.mp hj))
+  rw [h1, Finset.sum_add_distrib, Finset.sum_const, Finset.card_range, nsmul_eq_mul, Finset.mul_sum]
 
 end PyvcSum
